@@ -45,7 +45,7 @@ def run(chk):
     sites = []
     for d, b in lib.bodies.items():
         for x, anc in walk_anc(b.get('root')):
-            if x.get('k') == 'Call' and x.get('callee') and strip_generics(x['callee']['path']) == 'cast_unchecked':
+            if x.get('k') == 'Call' and x.get('callee') and lib.is_role(strip_generics(x['callee']['path']), 'cast_unchecked'):
                 guard = None
                 for (pn, slot) in reversed(anc):
                     if pn.get('k') == 'If' and slot == 'then':
@@ -115,7 +115,7 @@ def run(chk):
                        (key, cls(rf), cls(rg), [s['elem'] for s in rf.m.sinks], [s['elem'] for s in rg.m.sinks]), ok, '', key)
     if chk.tier == 'thorough':
         from .. import witness
-        witness.mono_matrix(chk)
+        witness.mono_matrix(chk, cast_name=lib.aliases.get('cast_unchecked', 'cast_unchecked').split('::')[-1])
     chk.note('implementors', f['traits'])
     chk.explanation = (
         "Generic proof: each of the %d call sites of the private unsafe fn cast_unchecked lies in the then-branch of "
